@@ -108,7 +108,7 @@ class Check(PropertyCheck):
             "peer data/EOF/reset, drain failure, write_eof failure, clock advance, cancellation of a handler task, client "
             "EOF/reset}; base scenarios with a cancellation / client disconnect injected after every step, then random "
             "scripts. distinct = distinct script; non-trivial = at least one upstream connection attempt.")
-    budget = {"quick": 500, "thorough": 40000}
+    budget = {"quick": 500, "thorough": 20000}
     time_budget = {"quick": 25, "thorough": 500}
     fingerprints = ["mitmproxy.proxy.server:ConnectionHandler.handle_client",
                     "mitmproxy.proxy.server:ConnectionHandler.open_connection",
